@@ -91,3 +91,38 @@ func HSpecClass(n int, which int) {
 	}
 	vCover("checked")
 }
+
+// HSpecOpener (T): a markup opener with the case of its letters free, followed by n free bytes; token stream and verdict
+// vs the reference from the data state and from the unquoted-attribute context.
+func HSpecOpener(n int, which int, ctx int) {
+	var pre string
+	switch which {
+	case 0:
+		pre = "<![" + vWord("cdata") + "["
+	case 1:
+		pre = "<!" + vWord("doctype")
+	case 2:
+		pre = "<!--"
+	case 3:
+		pre = "<%"
+	case 4:
+		pre = "<?" + vWord("xml")
+	case 5:
+		pre = "<!--[" + vWord("if")
+	case 6:
+		pre = "<!" + vWord("entity")
+	case 7:
+		pre = "<?" + vWord("import")
+	case 8:
+		pre = "</" + vWord("a")
+	case 9:
+		pre = "<" + vWord("a") + " " + vWord("b") + "="
+	}
+	s := pre + vNondetString(n)
+	h := new(h5State)
+	h.init(s, ctx)
+	r := specH5Init(s, ctx)
+	vH5Compare(h, r, len(s))
+	vAssert(isXSS(s, ctx) == specIsXSS(s, ctx), "context verdict equals the reference")
+	vCover("checked")
+}
